@@ -102,6 +102,45 @@ def gen_dt(r, n):
     return cases
 
 
+def gen_boundary():
+    """every index-taking entry point at count-1, count, count+1 and SIZE_MAX (-1); one call per case (each case is a forked child)"""
+    cases = []
+    def bnd(c): return [x for x in (c - 1, c, c + 1, -1) if x >= -1 and not (x == -1 and c == 0 and False)]
+    # HashMultiMap: key 5 with c values (c = 0: InsertKey only), other keys around it
+    for c in (0, 1, 2, 3, 7, 8, 9):
+        setup = ['add,1,10,13', 'add,9,90,13'] + (['inskey,5,3'] if c == 0 else ['add,5,%d,13' % (50 + j) for j in range(c)])
+        for idx in sorted(set(bnd(c))):
+            cases.append('mmh ' + ' '.join(setup + ['find,5,0', 'rmki,0,%d' % idx, 'count', 'find,5,1', 'kderef,1']))
+            # MakeIterator(keyIter, count) is legal and yields the position after the key's last value (not dereferenced here)
+            cases.append('mmh ' + ' '.join(setup + ['find,5,0', 'makeit,0,%d,10' % idx] + (['vderef,10', 'rmit,10'] if idx != c else []) + ['count']))
+    # arrays
+    for kind in ('arh', 'aih', 'sah'):
+        for n in (0, 1, 4, 5, 9, 33):
+            setup = ['addback,%d' % (v * 3 + 1) for v in range(n)]
+            for i in sorted(set(bnd(n))):
+                cases.append(kind + ' ' + ' '.join(setup + ['idx,%d' % i]))
+                cases.append(kind + ' ' + ' '.join(setup + ['ins,%d,77' % i, 'back']))
+                cases.append(kind + ' ' + ' '.join(setup + ['rmback,%d' % i]))
+                cases.append(kind + ' ' + ' '.join(setup + ['begin,0', 'adv,0,%d' % i, 'deref,0']))
+                cases.append(kind + ' ' + ' '.join(setup + ['end,0', 'adv,0,%d' % (-i if i >= 0 else 1), 'deref,0']))
+                for cnt in (0, 1, 2, -1):
+                    cases.append(kind + ' ' + ' '.join(setup + ['rm,%d,%d' % (i, cnt)]))
+                if i >= 1:
+                    cases.append(kind + ' ' + ' '.join(setup + ['rm,%d,%d' % (0, i)]))
+                    cases.append(kind + ' ' + ' '.join(setup + ['rm,%d,%d' % (1, i - 1)]))
+            cases.append(kind + ' ' + ' '.join(setup + ['back']))
+    # DataTable row numbers and selection indices
+    for n in (0, 1, 3, 6):
+        setup = ['addrow,%d' % (v * 7 + 1) for v in range(n)] + ['select,10']
+        for i in sorted(set(bnd(n))):
+            cases.append('dth ' + ' '.join(setup + ['ref,%d,0' % i, 'read,0']))
+            cases.append('dth ' + ' '.join(setup + ['selref,10,%d,0' % i, 'read,0']))
+            cases.append('dth ' + ' '.join(setup + ['rmnum,%d' % i, 'count']))
+            cases.append('dth ' + ' '.join(setup + ['updnum,%d,55' % i, 'count']))
+            cases.append('dth ' + ' '.join(setup + ['insert,%d,55' % i, 'count']))
+    return cases
+
+
 def gen(ctx, scale):
     r = ctx.rng
-    return gen_arr(r, 150 * scale) + gen_mm(r, 500 * scale) + gen_dt(r, 500 * scale)
+    return gen_boundary() + gen_arr(r, 150 * scale) + gen_mm(r, 500 * scale) + gen_dt(r, 500 * scale)
